@@ -135,7 +135,7 @@ def finish(ctx: Ctx, error: str | None = None, quiet=False):
             reported_known.append(f)
         else:
             violations.append(f)
-    evdir = os.path.join(VERIF, "evidence")
+    evdir = os.environ.get("VERIF_EVIDENCE_DIR") or os.path.join(VERIF, "evidence")
     os.makedirs(os.path.join(evdir, "replay"), exist_ok=True)
     distinct = {(o["rule"], o["file"], o["construct"], o["what"]) for o in ctx.obligations}
     rules = sorted({o["rule"] for o in ctx.obligations})
